@@ -670,7 +670,25 @@ func (ex *Exec) doAppend(fr *Frame, instr ssa.CallInstruction, c *ssa.CallCommon
 
 // appendCore: the semantics of append(s, t...) for element type el: in place when
 // the capacity suffices, otherwise into a fresh allocation.
+// atomSlice: a slice term that is to appear inside quantifier patterns must be a constant
+// (solvers reject patterns containing if-then-else, and define-fun names are expanded before
+// patterns are read): a compound term is replaced by a fresh constant equal to it.
+func (ex *Exec) atomSlice(t Term) Term {
+	if t.Sort != SSlice || !strings.Contains(t.S, "(") {
+		if t.Sort != SSlice || !ex.vc.isDefined(t.S) {
+			return t
+		}
+	}
+	c := ex.vc.fresh("sl", SSlice)
+	ex.vc.assume(tTrue, eq(c, t), "name for a slice value used in patterns")
+	return c
+}
+
 func (ex *Exec) appendCore(pc Term, st State, s, t Term, el types.Type) (State, Term) {
+	s = ex.atomSlice(s)
+	if t.Sort == SSlice {
+		t = ex.atomSlice(t)
+	}
 	var tl Term
 	if t.Sort == SStr {
 		tl = app(SInt, "strlen", t)
@@ -683,7 +701,8 @@ func (ex *Exec) appendCore(pc Term, st State, s, t Term, el types.Type) (State, 
 	inPlace := ex.vc.def("inplace", app(SBool, "<=", newLen, sCap(s)))
 	ncap := ex.vc.fresh("newcap", SInt)
 	ex.vc.assume(tTrue, app(SBool, ">=", ncap, newLen), "append capacity")
-	r := ex.vc.def("appended", ite(inPlace, mkSlice(sBase(s), sOff(s), newLen, sCap(s)), mkSlice(nb, intLit(0), newLen, ncap)))
+	r := ex.vc.fresh("appended", SSlice)
+	ex.vc.assume(tTrue, eq(r, ite(inPlace, mkSlice(sBase(s), sOff(s), newLen, sCap(s)), mkSlice(nb, intLit(0), newLen, ncap))), "append result")
 	if t.Sort == SStr {
 		keys := map[string]bool{cellKey(el): true}
 		return ex.havocKeys(st, keys, "append string"), r
